@@ -46,6 +46,13 @@ fn mutations(base: &[u8], word_offsets: &[usize], mut f: impl FnMut(&[u8]) -> bo
             }
         }
     }
+    // whole words complemented / zeroed / byte-swapped (32-bit bursts: CRC words, counters), aligned, in the first 64 and the last 8 bytes
+    for o in (0..n.min(64)).step_by(4).chain((n.saturating_sub(8)..n).step_by(4)) {
+        if o + 4 > n { continue; }
+        let mut b = base.to_vec(); for k in 0..4 { b[o + k] = !b[o + k]; } if !f(&b) { return; }
+        let mut b = base.to_vec(); b[o..o + 4].reverse(); if !f(&b) { return; }
+        let mut b = base.to_vec(); for k in 0..4 { b[o + k] = 0; } if !f(&b) { return; }
+    }
     // truncations and extensions
     for cut in 1..=5.min(n) { if !f(&base[..n - cut]) { return; } }
     for add in 1..=4 { let mut b = base.to_vec(); b.extend(std::iter::repeat(0).take(add)); if !f(&b) { return; } }
